@@ -40,13 +40,36 @@ fn main() {
     });
 }
 
-fn gname(n: u64) -> String { format!("g{}", n) }
-fn cname(n: u64) -> String { format!("c{}", n) }
+/// Names are transported as numbers.  100 / 101 stand for the two distinct NON-UTF-8 names `g\xff` / `g\xfe`
+/// (`c\xff` / `c\xfe` for consumers); inside this driver they are carried as the private-use characters
+/// U+E0FF / U+E0FE and turned into the single bytes 0xFF / 0xFE when a command frame is built (`encode`).
+fn binary_suffix(n: u64) -> Option<char> { match n { 100 => Some('\u{E0FF}'), 101 => Some('\u{E0FE}'), _ => None } }
+fn gname(n: u64) -> String { match binary_suffix(n) { Some(ch) => format!("g{}", ch), None => format!("g{}", n) } }
+fn cname(n: u64) -> String { match binary_suffix(n) { Some(ch) => format!("c{}", ch), None => format!("c{}", n) } }
+fn encode(s: &str) -> Vec<u8> {
+    let mut out = Vec::new();
+    for ch in s.chars() {
+        match ch {
+            '\u{E0FF}' => out.push(0xFF),
+            '\u{E0FE}' => out.push(0xFE),
+            c => { let mut b = [0u8; 4]; out.extend_from_slice(c.encode_utf8(&mut b).as_bytes()); }
+        }
+    }
+    out
+}
 fn num(s: &str) -> Option<u64> {
-    if s.is_empty() || !s.bytes().all(|b| b.is_ascii_digit()) || s.len() > 18 { return None; }
+    if s.is_empty() || !s.bytes().all(|b| b.is_ascii_digit()) || s.len() > 20 { return None; }
     s.parse().ok()
 }
-fn unname(s: &str) -> u64 { s[1..].parse().unwrap_or(u64::MAX) }
+/// name as it appears in a dump -> its number; 199 = the name the lossy UTF-8 conversion makes of BOTH binary names
+fn unname(s: &str) -> u64 {
+    match &s[1..] {
+        "\u{FFFD}" => 199,
+        "\u{E0FF}" => 100,
+        "\u{E0FE}" => 101,
+        t => t.parse().unwrap_or(u64::MAX),
+    }
+}
 
 fn parse_id(s: &str) -> Option<StreamId> {
     let (a, b) = s.split_once('-')?;
@@ -251,7 +274,7 @@ mod handlers {
     fn dump(h: &H, reply: String) -> String {
         match stream(h) { Some(s) => with_dump(&s, reply), None => format!("{} ;; S .", reply) }
     }
-    fn bulk(s: &str) -> RespFrame { RespFrame::BulkString(Some(Arc::new(s.as_bytes().to_vec()))) }
+    fn bulk(s: &str) -> RespFrame { RespFrame::BulkString(Some(Arc::new(encode(s)))) }
     fn frames(parts: &[&str]) -> Vec<RespFrame> { parts.iter().map(|p| bulk(p)).collect() }
     fn text(f: &RespFrame) -> Option<String> {
         match f {
@@ -286,7 +309,7 @@ mod handlers {
         })
     }
     fn is_err(f: &RespFrame, what: &str) -> bool { matches!(f, RespFrame::Error(b) if String::from_utf8_lossy(b).contains(what)) }
-    fn strip(s: &str) -> String { s[1..].to_string() }
+    fn strip(s: &str) -> String { format!("{}", unname(s)) }
 
     fn step(h: &mut H, ws: &[&str]) -> Option<String> {
         let key = h.key.clone();
@@ -294,8 +317,30 @@ mod handlers {
         let st = &h.storage;
         // validate the request exactly as the API mode does (bad-op on malformed input)
         let group_of = |w: &str| -> Option<String> { Some(gname(num(w)?)) };
-        let need_group = |g: &str| -> bool { stream(h).map(|s| s.get_consumer_group(g).is_some()).unwrap_or(false) };
+        // the name under which the handlers store a group: what String::from_utf8_lossy makes of the bytes sent
+        let need_group = |g: &str| -> bool {
+            let stored = String::from_utf8_lossy(&encode(g)).to_string();
+            stream(h).map(|s| s.get_consumer_group(&stored).is_some()).unwrap_or(false)
+        };
         Some(match ws {
+            ["mread", g, c, count, noack, kind] => {
+                // XREADGROUP over TWO streams (`STREAMS <key> <second> > <id2>`) whose SECOND stream fails
+                // (NOGROUP / wrong type / bad id): the command ends in an error, so nothing may have been delivered
+                let (g, c) = (group_of(g)?, cname(num(c)?));
+                let k2 = format!("{}b", k);
+                if !matches!(st.get(0, k2.as_bytes()), Ok(GetResult::Found(_))) {
+                    let _ = handle_xadd(st, 0, &frames(&["XADD", &k2, "1-0", "f", "v"]));
+                }
+                let mut p: Vec<String> = vec!["XREADGROUP".into(), "GROUP".into(), g, c];
+                if *count != "-" { num(count)?; p.push("COUNT".into()); p.push(count.to_string()); }
+                match *noack { "0" => {}, "1" => p.push("NOACK".into()), _ => return None }
+                let (second, id2) = match *kind { "nogroup" => (k2.as_str(), ">"), "wrongtype" => ("str", ">"), "badid" => (k2.as_str(), "nope"), _ => return None };
+                p.extend(["STREAMS".to_string(), k.to_string(), second.to_string(), ">".to_string(), id2.to_string()]);
+                match handle_xreadgroup(st, 0, &frames(&p.iter().map(|x| x.as_str()).collect::<Vec<_>>())) {
+                    Ok(RespFrame::Error(_)) | Err(_) => "refused".into(),
+                    Ok(other) => format!("answered:{}", show_frame(&other).replace(' ', "_")),
+                }
+            }
             ["bad", kind, g] => {
                 // malformed / refused administration commands: whatever the reply, nothing may change
                 let g = group_of(g)?;
